@@ -501,9 +501,105 @@ func (x *extractor) isSetErr(s ast.Stmt) (string, bool) {
 	o := x.obj(as.Rhs[0])
 	v, ok := o.(*types.Var)
 	if !ok || v.Pkg() == nil || v.Parent() != v.Pkg().Scope() || !isErrorType(v.Type()) {
+		// err = f(…): an error constructor of the library that never returns nil, given plain integer arguments
+		if c, isCall := ast.Unparen(as.Rhs[0]).(*ast.CallExpr); isCall {
+			if fn := x.calleeFunc(c); fn != nil && fn.Pkg() == x.m.Pkg.Types && x.neverNilError(fn) {
+				for _, a := range c.Args {
+					if _, lin := x.lin(a); !lin {
+						return "", false
+					}
+				}
+				return fn.Name() + "(…)", true
+			}
+		}
 		return "", false
 	}
 	return v.Name(), true
+}
+
+// neverNilError: fn returns exactly one result, an error, and every return statement returns a value that cannot be
+// nil: a call of fmt.Errorf / errors.New, a package-level error variable, a conversion to a non-interface named type,
+// or a call of another such function.
+func (x *extractor) neverNilError(fn *types.Func) bool {
+	sig, ok := fn.Type().(*types.Signature)
+	if !ok || sig.Results().Len() != 1 || !isErrorType(sig.Results().At(0).Type()) {
+		return false
+	}
+	var decl *ast.FuncDecl
+	for _, f := range x.m.Pkg.Syntax {
+		for _, d := range f.Decls {
+			if fd, ok := d.(*ast.FuncDecl); ok && x.m.Pkg.TypesInfo.Defs[fd.Name] == fn {
+				decl = fd
+			}
+		}
+	}
+	if decl == nil || decl.Body == nil {
+		return false
+	}
+	info := x.m.Pkg.TypesInfo
+	ok = true
+	n := 0
+	ast.Inspect(decl.Body, func(nd ast.Node) bool {
+		if _, isLit := nd.(*ast.FuncLit); isLit {
+			return false
+		}
+		ret, isRet := nd.(*ast.ReturnStmt)
+		if !isRet {
+			return true
+		}
+		n++
+		if len(ret.Results) != 1 {
+			ok = false
+			return true
+		}
+		e := ast.Unparen(ret.Results[0])
+		switch t := e.(type) {
+		case *ast.Ident:
+			if v, isVar := info.Uses[t].(*types.Var); isVar && v.Pkg() != nil && v.Parent() == v.Pkg().Scope() && isErrorType(v.Type()) {
+				return true
+			}
+		case *ast.CallExpr:
+			// conversion to a concrete named type: a non-nil interface value
+			if tv, has := info.Types[t.Fun]; has && tv.IsType() {
+				if _, isIface := tv.Type.Underlying().(*types.Interface); !isIface {
+					if _, isPtr := tv.Type.Underlying().(*types.Pointer); !isPtr {
+						return true
+					}
+				}
+			}
+			if f := x.calleeFuncIn(info, t); f != nil {
+				full := ""
+				if f.Pkg() != nil {
+					full = f.Pkg().Path() + "." + f.Name()
+				}
+				if full == "fmt.Errorf" || full == "errors.New" {
+					return true
+				}
+				if f != fn && f.Pkg() == fn.Pkg() && x.neverNilError(f) {
+					return true
+				}
+			}
+		case *ast.CompositeLit, *ast.UnaryExpr:
+			return true // a struct value or the address of one
+		}
+		ok = false
+		return true
+	})
+	return ok && n > 0
+}
+
+func (x *extractor) calleeFuncIn(info *types.Info, c *ast.CallExpr) *types.Func {
+	switch f := ast.Unparen(c.Fun).(type) {
+	case *ast.Ident:
+		if fn, ok := info.Uses[f].(*types.Func); ok {
+			return fn
+		}
+	case *ast.SelectorExpr:
+		if fn, ok := info.Uses[f.Sel].(*types.Func); ok {
+			return fn
+		}
+	}
+	return nil
 }
 
 // sym names a variable in linear forms.
